@@ -134,7 +134,7 @@ PROPS["C19"] = {"theorems": [("GdslModel.Props.C19", "G.Own." + t) for t in ["in
     "level_note": CORR_NOTE, "technique": "Lean 4 invariant proof over the ownership-accounting model + model/implementation correspondence with drop-counting payloads + held-handle oracle", "design_ref": "DESIGN.md section 7, C19"}
 
 PROPS["C17"] = {"theorems": [("GdslModel.Props.C17", "G.Conc." + t) for t in ["deadlock_free_di", "deadlock_free_un", "deadlock_free_wf", "serialisable_di", "serialisable_un", "quiescent_mirror_di", "quiescent_mirror_un", "unlocked_not_serialisable"]], "oracles": ["c17"],
-    "rule": "scenario = initial two-node graph + per-thread call lists; every schedule (choice of the thread that proceeds at each lock request of a node lock or the mutation mutex) is explored depth-first with real threads under the lock hook; each explored schedule is one case, replayed on the Lean thread model with the same decisions; distinct_nontrivial = number of schedules explored.",
+    "rule": "scenario = initial two-node graph + per-thread call lists (mutators, queries, whole iterations, bfs/dfs/preorder traversals, and node lifetime: a thread makes, connects, disconnects and drops a node of its own); every schedule (choice of the thread that proceeds at each lock request of a node lock or the mutation mutex) is explored depth-first with real threads under the lock hook; each explored schedule is one case, replayed on the Lean thread model with the same decisions; distinct_nontrivial = number of schedules explored.",
     "exhaustive": True, "timeout": {"quick": 1800, "thorough": 7200},
     "level_text": "Machine-checked proof (Lean 4) about the thread model of the sync flavours (lock programs of Model/Sync.lean, one atomic lock event per step, reader-writer admission; any number of threads, any schedule): no reachable configuration with an unfinished thread is stuck (deadlock freedom, also with readers and iterator steps, from 'node locks never nest, the mutex is requested only while holding nothing'); when all threads are done, the store and every mutator's return value are those of a sequential order of the same calls that respects each thread's order (the order of mutex acquisitions), hence no panic and the mirror/symmetry invariant at quiescence; the same with any number of reader threads in the mix (queries, iterations, and traversals - bfs/dfs search and preorder are lock programs of the model, proved write-free and well-formed): no deadlock, and the store and the mutators' results are still those of a sequential order of the mutator calls (projection simulation onto the mutator threads); without the mutation mutex the model admits a non-serialisable outcome (negative control by decide). The model's acquisition points are tied to the real code by the deterministic scheduler: real threads park at every lock request (node locks and the mutex go through the cfg-guarded hook), every schedule of every small scenario is enumerated, replayed on the model decision by decision, and every outcome is checked against the set of sequential outcomes computed on the real code. Named limits: the OS scheduler's own choices and fairness are replaced by 'all interleavings of lock events'; std's RwLock writer preference enters only as 'a second read guard behind a waiting writer is a deadlock'; panics raised by user payload code inside a locked region are outside the model.",
     "level_note": CORR_NOTE + " Deterministic scheduler (harness/src/sched.rs) and lock hook (src/verif_hook.rs, cfg gdsl_verif) are part of the trusted correspondence machinery.",
